@@ -205,6 +205,7 @@ theorem pickFold_picked : ∀ (n : Nat) (ls : List (List Nat)) (best : Option Na
               split
               · exact (hs i).tail
               · exact hs i
+            rw [show (y :: rj).tail = (ls.getD j []).tail from by rw [hlj]]
             apply ih _ _ _ hs'
             have haj' : ¬ j = a := by omega
             refine ⟨by omega, ?_, ?_⟩
